@@ -32,7 +32,6 @@ func TestMain(m *testing.M) {
 var (
 	scratchOnce sync.Once
 	scratchBase string
-	scratchOwn  bool
 )
 
 func base() string {
@@ -48,7 +47,7 @@ func base() string {
 		if err != nil {
 			panic(err)
 		}
-		scratchBase, scratchOwn = d, true
+		scratchBase = d
 	})
 	return scratchBase
 }
